@@ -41,6 +41,42 @@ def report_census(model: Model, report: Report, rule: str, only_modules: Any = N
     return sites
 
 
+def _constant_attribute_name(fi: Any, e: ast.expr) -> bool:
+    """The attribute name handed to getattr() can only be a string constant written in the source: a literal, or a loop /
+    comprehension variable ranging over a module-level literal table (tuple/list/dict of constants, possibly of tuples)."""
+    if isinstance(e, ast.Constant):
+        return isinstance(e.value, str)
+    if not isinstance(e, ast.Name):
+        return False
+
+    def literal_table(x: ast.expr) -> bool:
+        if isinstance(x, (ast.Tuple, ast.List, ast.Set)):
+            return all(literal_table(y) or isinstance(y, (ast.Constant, ast.Attribute, ast.Name)) for y in x.elts)
+        if isinstance(x, ast.Dict):
+            return all(isinstance(k, (ast.Constant, ast.Attribute)) for k in x.keys if k is not None)
+        return False
+
+    for n in ast.walk(fi.node):
+        targets = []
+        if isinstance(n, ast.For):
+            targets.append((n.target, n.iter))
+        elif isinstance(n, (ast.ListComp, ast.SetComp, ast.DictComp, ast.GeneratorExp)):
+            targets += [(g.target, g.iter) for g in n.generators]
+        for tgt, it in targets:
+            if not any(isinstance(x, ast.Name) and x.id == e.id for x in ast.walk(tgt)):
+                continue
+            src = it
+            if isinstance(src, ast.Call) and isinstance(src.func, ast.Attribute) and src.func.attr in ("items", "values", "keys"):
+                src = src.func.value
+            if isinstance(src, ast.Name):
+                v = fi.module.assigns.get(src.id)
+                if v is not None and literal_table(v):
+                    return True
+            if literal_table(src):
+                return True
+    return False
+
+
 def check(model: Model, report: Report) -> None:
     report.rule("R14.2", "every store / deletion / mutator call / in-place library call in the package has a receiver that is frame-fresh, self under construction, a per-call object, the in-flight exception, or a key-determined memo")
     report.rule("R14.3", "no global/nonlocal rebinding, no caching decorators, per-call classes never escape to attributes or module level")
@@ -54,6 +90,9 @@ def check(model: Model, report: Report) -> None:
         for n in walk_own(fi.node):
             if isinstance(n, ast.Call) and isinstance(n.func, ast.Name) and n.func.id in ("eval", "exec", "setattr", "delattr", "globals", "vars", "__import__", "getattr"):
                 if fi.module.short.startswith("utils.") or fi.module.short in ("cli",):
+                    continue
+                if n.func.id == "getattr" and len(n.args) >= 2 and _constant_attribute_name(fi, n.args[1]):
+                    report.ok("R14.3", fi.qualname, f"getattr with a name that is a constant of the source ({ast.unparse(n.args[1])})", nontrivial=False)
                     continue
                 report.fail("R14.3", fi.qualname, f"dynamic:{n.func.id}", f"dynamic feature {n.func.id}() defeats the static write analysis (R00)", file=fi.file, line=n.lineno)
     report_census(model, report, "R14.2")
